@@ -1,6 +1,8 @@
 package isobmff
 
 import (
+	"bufio"
+
 	"github.com/evanoberholster/imagemeta/meta"
 	"github.com/pkg/errors"
 	"github.com/rs/zerolog"
@@ -23,6 +25,9 @@ func (b box) isType(bt boxType) bool { return b.boxType == bt }
 // Peek returns []byte without advancing the reader. Is limited by the
 // constrains of the box.
 func (b *box) Peek(n int) ([]byte, error) {
+	if n < 0 {
+		return nil, bufio.ErrNegativeCount
+	}
 	if b.remain >= n {
 		if b.outer != nil {
 			return b.outer.Peek(n)
@@ -35,6 +40,9 @@ func (b *box) Peek(n int) ([]byte, error) {
 // Discard advances the reader. Is limited by the
 // constrains of the box.
 func (b *box) Discard(n int) (int, error) {
+	if n < 0 {
+		return 0, bufio.ErrNegativeCount
+	}
 	if b.remain >= n {
 		b.remain -= n
 		if b.outer != nil {
